@@ -28,6 +28,8 @@ def scenarios(tier):
            ("scrub-new-only-failing", Config(levels=2, ndisks=2), scrubbed, ("scrub", "-p", "new"))]
     # a scrub that meets an ordinary file error (a file removed since the sync) and the injected I/O error in the SAME stripe
     sc += [("scrub-fileerror", Config(levels=1, ndisks=2), base + adds + [("cmd", "sync"), ("rm", "d2", "B")], ("scrub", "-p", "full"))]
+    # ... and with a file that got SHORTER since the sync (reads beyond its end fail without any system call)
+    sc += [("scrub-shorter-fileerror", Config(levels=1, ndisks=2), base + adds + [("cmd", "sync"), ("write", "d1", "N", 2000, 1)], ("scrub", "-p", "full"))]
     sc += [("sync-adds-rehash", Config(levels=1, ndisks=2), base + [("cmd", "rehash")] + adds, ("sync",)),
            ("scrub-rehash", Config(levels=1, ndisks=2), base + adds + [("cmd", "sync"), ("cmd", "rehash")], ("scrub", "-p", "full"))]
     if True:
